@@ -336,7 +336,9 @@ def replay(rp, info):
     res = fw.Result("C16", "quick", 0)
     model = fw.Model() if info["ok"] else None
     case = rp.get("case") or {}
-    if "species" in case:
+    if case.get("kind") == "c16-driver":
+        check_driver(res, case["species"], random.Random(0), ("replay", 0))
+    elif "species" in case:
         check_net(res, model, case["species"], random.Random(0), "replay", render=True)
     for v in res.violations:
         print(v["kind"], v["what"][:600])
